@@ -6,7 +6,7 @@
 import concurrent.futures
 import json
 import random
-from slices import actor, engine, sysrun
+from slices import actor, engine, sysrun, watchrun
 
 
 def lifetimes(ck):
@@ -35,6 +35,12 @@ def lifetimes(ck):
                 o = dict(obs)
                 o.update({'outcome': 'alive' if obs['alive_after_builds'] else 'exited', 'fail': [], 'gated': True, 'stderr_tail': ''})
                 found.append((o, V['C11']))
+    # watch mode: services restarted by changes of their own input or of a producer must never overlap
+    wf, _ = watchrun.campaign(ck, 'C11', 6 if ck.tier == 'quick' else 60, fixed=[
+        ({'w0': {'kind': 'build', 'own_input': True, 'producers': [], 'deps': []},
+          'svc': {'kind': 'service', 'own_input': True, 'producers': ['w0'], 'deps': []}}, ['svc'], False,
+         [('change', 'svc'), ('idle',), ('change', 'w0'), ('idle',), ('change', 'w0'), ('idle',)])])
+    found += wf
     return found
 
 
